@@ -475,13 +475,51 @@ func (e *ssmEnv) reopen(forced bool) error {
 	return nil
 }
 
-func (e *ssmEnv) writePeers(cfg [][2]string) {
+type ssmPeer struct {
+	id, addr string
+	voter    bool
+}
+
+func ssmPeersLine(cfg []ssmPeer) string {
 	var ps []string
 	for _, c := range cfg {
-		ps = append(ps, fmt.Sprintf(`{"id": "%s","address": "%s"}`, c[0], c[1]))
+		t := c.id + "@" + c.addr
+		if !c.voter {
+			t += "/N"
+		}
+		ps = append(ps, t)
+	}
+	if len(ps) == 0 {
+		return "-"
+	}
+	return strings.Join(ps, ";")
+}
+
+// writePeers writes raft/peers.json with the entries in the given order.
+func (e *ssmEnv) writePeers(cfg []ssmPeer) {
+	var ps []string
+	for _, c := range cfg {
+		nv := ""
+		if !c.voter {
+			nv = `,"non_voter": true`
+		}
+		ps = append(ps, fmt.Sprintf(`{"id": "%s","address": "%s"%s}`, c.id, c.addr, nv))
 	}
 	os.MkdirAll(filepath.Join(e.dir, "raft"), 0o755)
 	mustWriteFile(filepath.Join(e.dir, "raft/peers.json"), "["+strings.Join(ps, ",")+"]")
+}
+
+// ssmRaftConfigList is raft's configuration as an ORDERED list of id@addr[/N].
+func ssmRaftConfigList(s *Store) string {
+	f := s.raft.GetConfiguration()
+	if f.Error() != nil {
+		return "ERR"
+	}
+	var cfg []ssmPeer
+	for _, sv := range f.Configuration().Servers {
+		cfg = append(cfg, ssmPeer{string(sv.ID), string(sv.Address), sv.Suffrage == raft.Voter})
+	}
+	return ssmPeersLine(cfg)
 }
 
 func ssmCopyDir(t *testing.T, src, dst string) {
